@@ -190,6 +190,7 @@ def run(name, calls, seed):
     kind, univ, needs_ref, incs = DETECTORS[name]
     det, twin = _mk(name), _mk(name)
     rng = random.Random(seed)
+    reuse, bufs = seed % 3 == 0, {}
     dim, cols = -1, "-"
     ev = []
     nvalid, prev_refused = 0, False
@@ -197,7 +198,15 @@ def run(name, calls, seed):
         vals = [[float(rng.randint(-4, 9)) + (0.5 if rng.random() < 0.3 else 0.0) + 0.125 * (t % 7) for _ in range(inp["width"])] for _ in range(inp["rows"])]
         if rng.random() < 0.3:
             vals = [[v + 20 for v in r] for r in vals]
+        if reuse and not inp["frame"] and inp["rows"] > 0:
+            variant = "array1d" if (variant in ("array1d", "list1d", "series", "scalar") and "array1d" in variants(kind, inp)) else "array2d"
         X = concrete(inp, variant, vals)
+        if reuse and isinstance(X, np.ndarray):
+            # "containers don't matter": the caller reads every observation into ONE preallocated array per shape and hands that same object over
+            # each time (the twin gets fresh arrays) - equivalent values, identical outputs
+            buf = bufs.setdefault((X.shape, str(X.dtype)), np.empty_like(X))
+            buf[...] = X
+            X = buf
         ok = valid_by_rule(kind, univ, dim, cols, inp)
         raised = "None"
         # seed schedule: one seed per WELL-FORMED call (index nvalid).  A refused call is seeded like the
